@@ -48,11 +48,15 @@ class UnitDataEnvelope(Contract):
     properties = ("C20", "C02")
     may_raise = ("UnitParseError",)
 
+    only_kind = None                 # a structural kind: the walk must still evaluate such expressions
+
     def formals(self, it):
         e = SExpr.fresh(it, "e")
         # the expression is a Number, Symbol, Pow, Mul or something else (exactly one kind)
         k = e_kind(e.term)
         it.assume(z3.And(k >= 0, k <= 4))
+        if self.only_kind is not None:
+            it.assume(k == self.only_kind)
         return {"unit_expr": e, "unit_symbol_lut": SLut.fresh(it, "lut")}
 
     def requires(self, it, a):
@@ -116,6 +120,45 @@ def _dim_is_one(d):
     return z3.BoolVal(False)
 
 
+class UnitDataNumber(UnitDataEnvelope):
+    """cover: numeric factors are evaluated (a walk that refuses every Number would satisfy the
+    envelope vacuously); likewise for Symbols, powers and products below"""
+    tag = "number"
+    only_kind = K_NUM
+    may_raise = ()
+
+    def raises(self, it, a):
+        # a numeric factor is refused exactly when it is not finite (nan, oo, zoo)
+        from pyvc.unyt_domain import E_ONE
+        return {"UnitParseError": z3.And(a.unit_expr.term != E_ONE,
+                                         z3.Not(to_z3(a.unit_expr.sv_getattr(it, "is_finite"))))}
+
+
+class UnitDataSymbol(UnitDataEnvelope):
+    tag = "symbol"
+    only_kind = K_SYM
+
+
+class UnitDataPow(UnitDataEnvelope):
+    tag = "pow"
+    only_kind = K_POW
+
+
+class UnitDataMul(UnitDataEnvelope):
+    tag = "mul"
+    only_kind = K_MUL
+
+
+class UnitDataOther(UnitDataEnvelope):
+    """anything else (Add, functions, relational, ...) is refused"""
+    tag = "other"
+    only_kind = K_OTHER
+    expect_return = False
+
+    def ensures(self, it, a, r, old):
+        return [("C20: an expression that is not a Number, Symbol, Pow or Mul is refused", False)]
+
+
 class UnitNewFromString(Contract):
     """Unit(<any string>, registry=...): succeeds with a Unit bound to the registry or raises
     UnitParseError -- nothing else escapes"""
@@ -150,4 +193,5 @@ class UnitNewFromString(Contract):
         return z3.BoolVal(False)
 
 
-ALL = ["ParseUnytExpr", "UnitDataEnvelope", "UnitNewFromString"]
+ALL = ["ParseUnytExpr", "UnitDataEnvelope", "UnitDataNumber", "UnitDataSymbol", "UnitDataPow", "UnitDataMul",
+       "UnitDataOther", "UnitNewFromString"]
